@@ -28,11 +28,22 @@ pub struct RuntimeData {
     pub(crate) object_list: Vec<NonNull<CaoLangObject>>,
     pub(crate) current_program: *const CaoCompiledProgram,
     pub(crate) open_upvalues: *mut CaoLangObject,
+    /// verification hook: swept objects keep a poisoned header instead of being released, so a
+    /// stale pointer is recognisable instead of undefined behaviour
+    #[cfg(feature = "verif-hooks")]
+    pub verif_quarantine: bool,
+    #[cfg(feature = "verif-hooks")]
+    pub verif_graveyard: Vec<NonNull<CaoLangObject>>,
 }
 
 impl Drop for RuntimeData {
     fn drop(&mut self) {
         self.clear();
+        #[cfg(feature = "verif-hooks")]
+        for obj in std::mem::take(&mut self.verif_graveyard) {
+            // the poisoned headers own nothing; their bytes were already refunded
+            unsafe { std::alloc::dealloc(obj.as_ptr().cast(), Layout::new::<CaoLangObject>()) };
+        }
     }
 }
 
@@ -63,6 +74,10 @@ impl RuntimeData {
             memory,
             current_program: std::ptr::null(),
             open_upvalues: std::ptr::null_mut(),
+            #[cfg(feature = "verif-hooks")]
+            verif_quarantine: false,
+            #[cfg(feature = "verif-hooks")]
+            verif_graveyard: Vec::new(),
         });
         unsafe {
             let reference: &mut Self = Pin::get_mut(res.as_mut());
@@ -242,6 +257,30 @@ impl RuntimeData {
     }
 
     pub fn free_object(&mut self, obj: NonNull<CaoLangObject>) {
+        #[cfg(feature = "verif-hooks")]
+        if self.verif_quarantine {
+            unsafe {
+                // release the body (strings, table storage) and the accounting exactly as usual,
+                // but keep the header block alive with a poison value
+                std::ptr::drop_in_place(obj.as_ptr());
+                std::ptr::write(
+                    obj.as_ptr(),
+                    CaoLangObject {
+                        marker: GcMarker::White,
+                        body: CaoLangObjectBody::Function(CaoLangFunction {
+                            handle: Handle::from_u32(crate::verif::POISON_HANDLE_SEED),
+                            arity: crate::verif::POISON_ARITY,
+                        }),
+                    },
+                );
+                let l = Layout::new::<CaoLangObject>();
+                (*self.memory)
+                    .allocated
+                    .fetch_sub(l.size() + l.align(), std::sync::atomic::Ordering::Relaxed);
+                self.verif_graveyard.push(obj);
+            }
+            return;
+        }
         unsafe {
             std::ptr::drop_in_place(obj.as_ptr());
             self.memory
